@@ -449,7 +449,11 @@ pub fn run_schedule(toks: &[Tok], n_keys: usize, block_on_no_clients: bool) -> R
             Poll::Ready(Some((key, item))) => {
                 *parked = Some(false);
                 stats.deliveries += 1;
-                let n_ever = w.streams.iter().filter(|s| s.ever_inserted).count() as u32;
+                // "number of peers" = connections ever inserted: a key that is removed and
+                // inserted again is a new peer. (The queue cannot delete a removed stream's
+                // ready events, so each earlier incarnation of a key can grant the current one
+                // one extra turn - bounded by the number of connections, never by traffic.)
+                let n_ever: u32 = w.streams.iter().map(|s| s.gen).sum();
                 if item.0 != key {
                     fail!(c05, "C05/queue/wrong-key", "item {:?} of stream {} was returned under key {}", item, item.0, key);
                 }
@@ -481,7 +485,7 @@ pub fn run_schedule(toks: &[Tok], n_keys: usize, block_on_no_clients: bool) -> R
                                 fail!(
                                     c06,
                                     "C06/queue/starvation",
-                                    "stream {} has had an item ready while {} deliveries from other streams went ahead (bound 2n = {})",
+                                    "stream {} has had an item ready while {} deliveries from other streams went ahead (bound 2n = {}, n = connections ever inserted)",
                                     j,
                                     *b,
                                     2 * n_ever
